@@ -171,9 +171,30 @@ def main(run):
     per = {}
     for (ci, name, order), rr, rq in zip(meta, res, reqs):
         per.setdefault(ci, []).append((name, order, rr, rq))
-    terms, tidx = [], []
     distinct = set()
     stages = {}
+    nterms = judge(run, cases, per, distinct, stages)
+    run.cov["distinct_nontrivial"] = len(distinct)
+    run.cov["rule"] = ("per generated journal (2-7 txns, 25% with two indistinguishable headers, 40% audit mode): original, re-run, "
+                       "permuted + re-laid-out (indent, metadata order, blank lines), sharded over nested directories; outputs "
+                       "balance/balance-group/register/identity/equity/metadata compared byte for byte (numbers and checksums only when "
+                       "headers tie); every session runs with fresh hash seeds; non-trivial = distinct balance texts")
+    run.notes["stages"] = stages
+    run.notes["model_order_checks"] = nterms
+    run.notes["hash_sites_audit"] = hash_sites()
+    return run.finish(info)
+
+
+def case_of(c, runs):
+    """what ./check C04 --replay needs: the sessions of the case (one harness request per arrangement, with the order in
+    which a single-string arrangement lists the transactions) and whether two headers tie"""
+    return {"tie": bool(c["tie"]), "runs": [[name, order, {k: v for k, v in rq.items() if k != "id"}] for name, order, rr, rq in runs]}
+
+
+def judge(run, cases, per, distinct, stages):
+    """per[ci] = [(arrangement name, order or None, harness result, request)]: the comparisons of the property and the
+    model's order; returns the number of model order checks"""
+    terms, tidx = [], []
     for ci, c in enumerate(cases):
         runs = per[ci]
         base = runs[0][2]
@@ -186,7 +207,7 @@ def main(run):
                 if rr.get("stage") != st:
                     run.violation("arrangement changes acceptance of the same transaction set",
                                   {"arrangement": name, "inputs_a": runs[0][3].get("inputs"), "inputs_b": rq.get("inputs"),
-                                   "stage_a": st, "stage_b": rr.get("stage"), "err_a": base.get("err"), "err_b": rr.get("err")})
+                                   "stage_a": st, "stage_b": rr.get("stage"), "err_a": base.get("err"), "err_b": rr.get("err"), "case": case_of(c, runs)})
             continue
         bres = {o["op"]: x for o, x in zip(OPS, base["results"])}
         if "ok" in bres["text_balance"]:
@@ -198,7 +219,7 @@ def main(run):
             if rr.get("stage") != "done":
                 run.violation("arrangement changes acceptance of the same transaction set",
                               {"arrangement": name, "inputs_a": runs[0][3].get("inputs"), "inputs_b": rq.get("inputs"),
-                               "stage_b": rr.get("stage"), "err_b": rr.get("err")})
+                               "stage_b": rr.get("stage"), "err_b": rr.get("err"), "case": case_of(c, runs)})
                 continue
             ores = {o["op"]: x for o, x in zip(OPS, rr["results"])}
             if not c["tie"]:
@@ -206,7 +227,7 @@ def main(run):
                     if ores[op] != bres[op]:
                         run.violation("output %s differs between two arrangements of the same transaction set (byte comparison)" % op,
                                       {"arrangement_a": "original", "arrangement_b": name, "inputs_a": runs[0][3].get("inputs"),
-                                       "inputs_b": rq.get("inputs"), "config": rq["conf"]["toml"], "output_a": bres[op], "output_b": ores[op]})
+                                       "inputs_b": rq.get("inputs"), "config": rq["conf"]["toml"], "output_a": bres[op], "output_b": ores[op], "case": case_of(c, runs)})
                         break
             else:
                 same = True
@@ -223,7 +244,7 @@ def main(run):
                 if not same:
                     run.violation("balance figures or checksum differ between two arrangements of the same transaction set (headers not distinct)",
                                   {"arrangement_b": name, "inputs_a": runs[0][3].get("inputs"), "inputs_b": rq.get("inputs"),
-                                   "output_a": {k: bres[k] for k in ("balance", "metadata")}, "output_b": {k: ores[k] for k in ("balance", "metadata")}})
+                                   "output_a": {k: bres[k] for k in ("balance", "metadata")}, "output_b": {k: ores[k] for k in ("balance", "metadata")}, "case": case_of(c, runs)})
         # model: the stable canonical sort predicts the implementation's order in each single-string arrangement
         for name, order, rr, rq in runs:
             if order is None or rr.get("stage") != "done":
@@ -249,16 +270,8 @@ def main(run):
             run.cov["disagreements_checked"] += 1
             run.violation("correspondence broken: canonical order of the implementation differs from Txn.sort_txns",
                           {"correspondence": "C04_corr.c04_case", "arrangement": name,
-                           "inputs": [rq.get("inputs") for nm, _, _, rq in per[ci] if nm == name]}, found_input=False)
-    run.cov["distinct_nontrivial"] = len(distinct)
-    run.cov["rule"] = ("per generated journal (2-7 txns, 25% with two indistinguishable headers, 40% audit mode): original, re-run, "
-                       "permuted + re-laid-out (indent, metadata order, blank lines), sharded over nested directories; outputs "
-                       "balance/balance-group/register/identity/equity/metadata compared byte for byte (numbers and checksums only when "
-                       "headers tie); every session runs with fresh hash seeds; non-trivial = distinct balance texts")
-    run.notes["stages"] = stages
-    run.notes["model_order_checks"] = len(terms)
-    run.notes["hash_sites_audit"] = hash_sites()
-    return run.finish(info)
+                           "inputs": [rq.get("inputs") for nm, _, _, rq in per[ci] if nm == name], "case": case_of(cases[ci], per[ci])}, found_input=False)
+    return len(terms)
 
 
 def hash_sites():
@@ -275,6 +288,23 @@ def hash_sites():
 
 
 def replay(run, path):
-    j = json.load(open(path))
-    print(json.dumps(j, indent=1, ensure_ascii=False)[:8000])
-    return 0
+    """the stored arrangements of one transaction set again (each in a fresh harness process, the re-run as often as in
+    the normal run) + the comparisons of judge()"""
+    j, rp, rc = replay_begin(run, path)
+    if rc is not None:
+        return rc
+    cs = rp.get("case")
+    if not (isinstance(cs, dict) and cs.get("runs")):
+        return replay_print(j)
+    print(j.get("what"))
+    for name, order, rq in cs["runs"]:
+        print("arrangement %s (%s): %s" % (name, rq.get("load"), json.dumps(rq.get("inputs"), ensure_ascii=False)[:1500]))
+    corr_build("C04")
+    harness_build()
+    c = {"tie": bool(cs["tie"]), "src": "replay"}
+    reqs = [copy.deepcopy(rq) for name, order, rq in cs["runs"]]
+    res = harness_run(reqs, nproc=NPROC)
+    per = {0: [(name, order, rr, rq) for (name, order, _), rr, rq in zip(cs["runs"], res, reqs)]}
+    judge(run, [c], per, set(), {})
+    return replay_verdict(run, path, j, "the %d arrangements of the stored transaction set give %s and the model predicts the order of each"
+                          % (len(reqs), "the same figures and checksums" if c["tie"] else "byte-identical outputs"))
